@@ -99,7 +99,9 @@ SCENARIOS = {
         "assumptions": ["the no-temp-file / no-descriptor clause rests on Rust's Drop; it is observed on the real process (fdcheck), not proved"],
     },
     "C11": {
-        "theorems": ["C11_cover_dot_scalar", "C11_cover_dot_sse", "C11_cover_dot_avx", "C11_cover_euclid_scalar", "C11_cover_euclid_sse",
+        "modules": ["C11", "C11Real"],
+        "theorems": ["C11_f32_std_model_on", "C11_round_f32_dot_product", "C11_round_f32_euclidean_distance", "C11_round_f32_manhattan_distance",
+                     "C11_mul_std", "C11_add_std", "C11_fma_std", "C11_div_std", "C11_sqrt_std", "C11_cover_dot_scalar", "C11_cover_dot_sse", "C11_cover_dot_avx", "C11_cover_euclid_scalar", "C11_cover_euclid_sse",
                      "C11_cover_euclid_avx", "C11_dispatch", "C11_symm", "C11_self_zero_euclid", "C11_self_zero_manhattan",
                      "C11_cosine_range", "C11_round", "C11_round_simd"],
         "quick": [{"name": "kernels", "args": ["kernels", "--seed", "{seed}"]}],
